@@ -210,6 +210,7 @@ class Counting:
     _count('Counting.__init__')
     self.base = base
     self.hits = 0
+    self._base2 = base * 2      # a conventional single-underscore attribute (like namedtuple's _fields / _asdict)
     self.items = {'k': base, 'l': [base, base + 1]}
 
   def bump(self, by=1):
